@@ -2,7 +2,7 @@
 //! Must-accept control per (credential, selection, format, holder alg, aud, nonce); must-reject
 //! for every attack of the property's list. Crafted KB-JWTs come from the signing oracle.
 
-use crate::api::{self, Outcome, Resolver};
+use crate::api::{self, KbArgs, Outcome, Resolver};
 use crate::evidence::{run_cases, Ctx, Local, Report, Tier, Violation};
 use crate::gen;
 use crate::keys::{self, Alg};
@@ -154,6 +154,32 @@ fn one_case(ctx: &Ctx, case: u64, l: &mut Local) {
                             observed: v.out.panic_signature().unwrap_or_else(|| v.out.describe()),
                             case,
                             detail: json!({"config": cfg.describe(), "history": api::history()}),
+                        });
+                    }
+                }
+            }
+        }
+    }
+    // ---- a holder key whose x coordinate starts with a zero octet: confirmed, presented and verified
+    // like any other key
+    if case % 4 == 2 {
+        let mut issuer = api::new_issuer(cfg.alg, 0, s.explicit_alg);
+        if let Ok(lz) = pipeline::issue_with(&mut issuer, &s.u, &s.strat, Some((Alg::ES256, 2)), cfg.decoys, fmt) {
+            let kb_lz = KbArgs { nonce: kb.nonce.clone(), aud: kb.aud.clone(), alg: Alg::ES256, key_idx: 2, explicit_alg: true };
+            if let Outcome::Ok(mut h) = api::holder_new(&lz.sd_jwt, fmt) {
+                if let Outcome::Ok(p2) = api::present(&mut h, &sel, Some(&kb_lz)) {
+                    let v = api::verify(&p2, &resolver, Some((&kb.aud, &kb.nonce)), fmt);
+                    l.evals += 1;
+                    let cnf_ok = lz.payload["cnf"]["jwk"]["x"] == keys::holder_jwk_json(Alg::ES256, 2)["x"];
+                    if v.out.is_ok() && cnf_ok {
+                        l.count("control.leading-zero-coordinate-key.accepted");
+                    } else {
+                        l.violate(Violation {
+                            subcheck: "control-rejected".into(),
+                            class: format!("holder key with a leading zero octet in x ({})", fmt.name()),
+                            observed: if cnf_ok { v.out.panic_signature().unwrap_or_else(|| v.out.describe()) } else { "cnf.jwk.x is not the coordinate that was bound".into() },
+                            case,
+                            detail: json!({"config": cfg.describe(), "cnf": lz.payload["cnf"], "history": api::history()}),
                         });
                     }
                 }
